@@ -403,6 +403,21 @@ def writer_case(fmt: Format, dims, entry, k_entries, stats):
             if conds and m.check(z3.Not(z3.And(*conds))) != z3.unsat:
                 problems.append({"what": "value read back differs from the (summed) value supplied", "format": fmt.deparse(),
                                  "coords": conc, "dimensions": list(dims), "entry": entry})
+            # to_format: content preserved in another format (drops explicit zeros: the comparison below is on values)
+            if order and entry == "from_aos":
+                other = Format(tuple(Mode.compressed if mm == Mode.dense else Mode.dense for mm in fmt.modes),
+                               tuple(reversed(fmt.ordering)))
+                t2 = t.to_format(other)
+                got2 = {}
+                for c, v in t2.items():
+                    c = tuple(int(x) if not isinstance(x, SymInt) else x.concretise() for x in c)
+                    got2[c] = vterm(v)
+                conds2 = [got2.get(c, z3.RealVal(0)) == want.get(c, z3.RealVal(0)) for c in set(want) | set(got2)]
+                if t2.format != other or tuple(t2.dimensions) != tuple(dims):
+                    problems.append({"what": "to_format: format/dimensions not as requested", "format": fmt.deparse(), "entry": entry})
+                if conds2 and m.check(z3.Not(z3.And(*conds2))) != z3.unsat:
+                    problems.append({"what": "to_format changes the content", "format": fmt.deparse(), "target": other.deparse(),
+                                     "coords": conc, "dimensions": list(dims), "entry": entry})
             # canonical structure: sorted, duplicate-free per segment
             idx = t.taco_indices
             for l, lv in enumerate(idx):
@@ -428,6 +443,49 @@ def writer_case(fmt: Format, dims, entry, k_entries, stats):
     return problems
 
 
+def lol_case(fmt: Format, dims, stats):
+    """from_lol on a full list-of-lists of symbolic values (zeros are dropped by the real code via
+    ``value != 0.0``, which forks)."""
+    from tensora import Tensor
+
+    problems = []
+    order = fmt.order
+    cells = list(itertools.product(*[range(d) for d in dims]))
+    vals_t = {c: z3.Real("l_" + "_".join(map(str, c))) for c in cells}
+
+    def build(prefix):
+        if len(prefix) == order:
+            return SymVal(vals_t[tuple(prefix)])
+        return [build(prefix + [k]) for k in range(dims[len(prefix)])]
+
+    def body(m):
+        lol = build([])
+        try:
+            t = Tensor.from_lol(lol, dimensions=tuple(dims), format=fmt)
+            got = {}
+            for c, v in t.items():
+                c = tuple(int(x) if not isinstance(x, SymInt) else x.concretise() for x in c)
+                got[c] = vterm(v)
+            conds = [got.get(c, z3.RealVal(0)) == vals_t[c] for c in cells]
+            extra = [c for c in got if c not in vals_t]
+            if extra:
+                problems.append({"what": "from_lol stores a coordinate outside the list", "format": fmt.deparse()})
+            if conds and m.check(z3.Not(z3.And(*conds))) != z3.unsat:
+                problems.append({"what": "from_lol: value read back differs from the list", "format": fmt.deparse(), "dimensions": list(dims)})
+            if tuple(t.dimensions) != tuple(dims) or t.format != fmt:
+                problems.append({"what": "from_lol: dimensions/format not as given", "format": fmt.deparse()})
+        except (HarnessError, Infeasible):
+            raise
+        except Exception as e:  # noqa: BLE001
+            problems.append({"what": f"from_lol raised {type(e).__name__}: {e}"[:200], "format": fmt.deparse(), "dimensions": list(dims)})
+
+    with fake_ffi():
+        st = pyproxy.explore(lambda m: None, body, max_paths=20000)
+    for k in ("paths", "queries", "solver_s", "decisions"):
+        stats[k] += getattr(st, k)
+    return problems
+
+
 def _reader_worker(fmt_text):
     from tensora.format import parse_format
 
@@ -447,7 +505,10 @@ def _writer_worker(args):
     stats = {"paths": 0, "queries": 0, "solver_s": 0.0, "decisions": 0}
     fmt = parse_format(fmt_text).unwrap()
     try:
-        probs = writer_case(fmt, dims, entry, k, stats)
+        if entry == "from_lol":
+            probs = [dict(p, entry="from_lol") for p in lol_case(fmt, dims, stats)]
+        else:
+            probs = writer_case(fmt, dims, entry, k, stats)
     except HarnessError as e:
         probs = [{"what": f"harness: {e}", "format": fmt_text, "harness": True}]
     return stats, probs
@@ -475,6 +536,9 @@ def run(tier):
                     if tier == "quick" and n == 2 and entry != "from_aos" and f.ordering != (1, 0):
                         continue
                     wjobs.append((f.deparse() if n else "", list(dims), entry, k))
+    for n, dims in ((1, (2,)), (2, (2, 2)), (2, (1, 2))):
+        for f in all_formats(n):
+            wjobs.append((f.deparse(), list(dims), "from_lol", 0))
     with ctx.Pool(procs) as pool:
         n_reader = 0
         for st, probs in pool.imap_unordered(_reader_worker, fmts):
@@ -526,7 +590,8 @@ def run(tier):
         "bounds": {"reader": f"all formats of order <= {max_order}; <= {N_MAX} stored entries per compressed level; dense extents 0..{D_DENSE}; "
                              "crd values, values and compressed-only dimension sizes symbolic (sizes up to 2^31-1)",
                    "writer": "orders 0..2 (quick) / 0..3 (thorough); <= 2 entries with coordinates in [-1, dim] (value-forked), "
-                             "values symbolic; entry points from_aos/from_dok/from_soa"},
+                             "values symbolic; entry points from_aos/from_dok/from_soa, to_format into the mode-flipped reversed-ordering format, "
+                             "from_lol on full 2 / 2x2 / 1x2 lists of symbolic values"},
         "functions_encoded": ["Tensor.items / taco_indices / taco_vals / __getstate__ / __setstate__ / format / dimensions",
                               "Tensor.from_aos / from_dok / from_soa, coordinates_to_tree, tree_to_indices_and_values",
                               "taco_structure_to_cffi, allocate_taco_structure (validation logic; FFI calls stubbed)"],
@@ -535,8 +600,7 @@ def run(tier):
     }
     common.write_evidence("C09", tier, "model_checking", coverage,
                           ["the writer half is bounded-exhaustive over coordinates (the real code hashes them, so the proxy "
-                           "value-forks) and symbolic in values; from_numpy/from_scipy_sparse and from_lol are outside (C boundary / "
-                           "list-shape driven)", "z3 trusted; proxy layer and FakeFFI are part of the claim"],
+                           "value-forks) and symbolic in values; from_numpy/from_scipy_sparse are outside (C boundary)", "z3 trusted; proxy layer and FakeFFI are part of the claim"],
                           time.time() - t0, len(rep.violations))
     print(f"C09 {tier}: reader formats={n_reader} writer jobs={n_writer} paths={tot['paths']} queries={tot['queries']} "
           f"wall={time.time() - t0:.0f}s", flush=True)
